@@ -6,8 +6,9 @@ import contextlib
 import core
 
 B = 16384
-NAMES = ["a", "a.txt", "a-b", "A", "b", "ab", "a b", "é", "z", "0", "_x", "a.d", "B.bin", "c+d", "k&r", "q=1", "日本"]
-DIRS = ["a", "d", "a.d", "sub dir", "Z", "é", "a-b", "0"]
+NAMES = ["a", "a.txt", "a-b", "A", "b", "ab", "a b", "é", "z", "0", "_x", "a.d", "B.bin", "c+d", "k&r", "q=1", "日本",
+         "we\\ird.bin", "x:y", "q's"]      # a backslash is an ordinary character in a POSIX file name
+DIRS = ["a", "d", "a.d", "sub dir", "Z", "é", "a-b", "0", "b\\s"]
 
 
 def boundary_sizes(pl):
